@@ -411,3 +411,179 @@ def observe(case):
     o = {"guise": _guise, "rel": _rel, "unit": _unit, "lit": _lit}[k](case)
     o["case"] = case
     return o
+
+
+# ===================================================================== use histories (round 4)
+# A history: take one guise of a constant, apply 1-3 documented-copy calls (each on the previous result), then ONE in-place
+# call on the last result; afterwards no exported constant of the namespace (nor of the module) may have changed.
+_SNAP = {}
+_ROWDEV = {}
+
+
+def _bits(v):
+    import numpy as np
+
+    return np.ndarray.item(v)
+
+
+def _snapshot(cid, ns):
+    if cid not in _SNAP:
+        _SNAP[cid] = {k: (_bits(v), str(v.units), v.units, np_copy(v)) for k, v in ns.items() if isinstance(v, _U["uq"]) and not k.startswith("_")}
+    return _SNAP[cid]
+
+
+def np_copy(v):
+    import numpy as np
+
+    return np.array(v.d, copy=True)
+
+
+def _changed(cid, ns):
+    snap = _snapshot(cid, ns)
+    out = []
+    for k, (hx, us, _u, _d) in snap.items():
+        v = ns.get(k)
+        if not isinstance(v, _U["uq"]):
+            out.append(k)
+            continue
+        # same number (bit for bit) and same unit (the Unit object itself, else the same text)
+        if _bits(v) != hx or (v.units is not _u and str(v.units) != us):
+            out.append(k)
+    return out
+
+
+def _restore(cfg, ns, keys):
+    cid = cfg["id"]
+    if cfg["kind"] in ("module", "top"):
+        snap = _snapshot("module", vars(_U["pc"]))
+        for k in keys:
+            v = vars(_U["pc"])[k]
+            v.units = snap[k][2]
+            v.ndview[...] = snap[k][3]
+    else:
+        _NS.pop(cid, None)
+        _SNAP.pop(cid, None)
+
+
+def _apply(op, y, row, reg, cfg):
+    if op == "in_base":
+        return y.in_base("mks" if cfg["kind"] in ("module", "top") else reg.unit_system)
+    if op == "in_mks":
+        return y.in_mks()
+    if op == "in_cgs":
+        return y.in_cgs()
+    if op == "to_same":
+        return y.to(y.units)
+    if op == "in_units_same":
+        return y.in_units(str(y.units))
+    if op == "to_tab":
+        return y.to(_U["Unit"](row["u"], registry=reg))
+    if op == "copy":
+        return y.copy()
+    if op == "mul1":
+        return y * 1.0
+    if op == "equiv":
+        dv = dim_vec(y.units.dimensions)
+        if dv == [12, 0, 0, 0, 0, 0, 0, 0, 0]:
+            return y.to_equivalent("J", "mass_energy")
+        if dv == [0, 0, 0, 12, 0, 0, 0, 0, 0]:
+            return y.to_equivalent("J", "thermal")
+        return y.to_equivalent("kg", "mass_energy")
+    raise ValueError(op)
+
+
+def _inplace(op, y):
+    import numpy as np
+
+    if op == "imul":
+        y *= 2.0
+    elif op == "convert":
+        try:
+            same = str(y.in_cgs().units) == str(y.units)
+        except Exception:  # noqa: BLE001
+            same = False
+        if same:
+            y.convert_to_mks()
+        else:
+            y.convert_to_cgs()
+    elif op == "setitem":
+        y[...] = y * 3.0
+    elif op == "copyto":
+        np.copyto(y, y * 3.0)
+    elif op == "ufunc_out":
+        np.multiply(y, 2.0, out=y)
+    elif op == "fill":
+        y.fill(float(y.value) * 5.0)
+    else:
+        raise ValueError(op)
+
+
+def observe_use(case):
+    import numpy as np
+
+    cfg = _C["configs"][case["cfg"] - 1]
+    nm = _C["names"][case["a"] - 1]
+    row = _C["rows"][nm["ci"] - 1]
+    ns, reg = _namespace(cfg)
+    mod = vars(_U["pc"])
+    _snapshot(cfg["id"] if cfg["kind"] not in ("module", "top") else "module", ns if cfg["kind"] not in ("module", "top") else mod)
+    _snapshot("module", mod)
+    out = {"case": case}
+    src = ns.get(nm["n"] + SUFFIX[case["g"]])
+    out["present"] = isinstance(src, _U["uq"])
+    if not out["present"]:
+        return out
+    y, steps = src, []
+    for op in case["ops"]:
+        try:
+            y2 = _apply(op, y, row, reg, cfg)
+        except Exception as e:  # noqa: BLE001 - a refused call ends the history
+            steps.append({"op": op, "ok": False, "exc": type(e).__name__, "shares": False, "same": False})
+            break
+        steps.append({"op": op, "ok": True, "exc": "", "shares": bool(np.shares_memory(y2, src)), "same": y2 is src})
+        y = y2
+    out["steps"] = steps
+    out["done"] = sum(1 for s in steps if s["ok"])
+    ip = {"op": case["ip"], "ok": False, "exc": "", "applied": False}
+    if out["done"] > 0:  # also when a call handed back the constant itself: the program would update "its" value all the same
+        ip["applied"] = True
+        try:
+            _inplace(case["ip"], y)
+            ip["ok"] = True
+        except Exception as e:  # noqa: BLE001
+            ip["exc"] = type(e).__name__
+    out["ip"] = ip
+    # afterwards: nothing exported may have changed (this namespace and the module), and the guises of the row still read the table value
+    cid = "module" if cfg["kind"] in ("module", "top") else cfg["id"]
+    ch_ns = _changed(cid, mod if cid == "module" else ns)
+    ch_mod = _changed("module", mod) if cid != "module" else []
+    out["nchanged"] = len(ch_ns) + len(ch_mod)
+    out["changed"] = sorted(ch_ns + ch_mod)[:6]
+    rk = (cid, nm["ci"])
+    if not (ch_ns or ch_mod) and rk in _ROWDEV:
+        out["rowdev"] = _ROWDEV[rk]  # nothing changed bit for bit: the row reads what it read before
+        return out
+    worst = 0
+    tab = _U["Unit"](row["u"])
+    for r in _C["names"]:
+        if r["ci"] != nm["ci"]:
+            continue
+        for suf in ("", "_mks", "_cgs"):
+            q = ns.get(r["n"] + suf)
+            if not isinstance(q, _U["uq"]):
+                continue
+            try:
+                f1 = _flag(_raw(q.to(tab)), _row_anchor(nm["ci"]))
+                f2 = _flag(_raw(_U["uq"](float(q.value), str(q.units), registry=reg).to(tab)), _row_anchor(nm["ci"]))
+            except Exception:  # noqa: BLE001
+                f1 = f2 = 10
+            worst = max(worst, f1, f2)
+    out["rowdev"] = worst
+    if not (ch_ns or ch_mod):
+        _ROWDEV[rk] = worst
+    if ch_ns or ch_mod:
+        if ch_mod or cid == "module":
+            _restore({"id": "module", "kind": "module"}, mod, ch_mod if cid != "module" else ch_ns)
+        if cid != "module":
+            _restore(cfg, ns, ch_ns)
+    return out
